@@ -142,6 +142,41 @@ func init() {
 					}
 				}
 			}
+			// ... or the same as byte comparisons: key[0] == '[' and key[len(key)-1] == ']'
+			eachInstr(lit, func(in ssa.Instruction) {
+				b, ok := in.(*ssa.BinOp)
+				if !ok || b.Op != token.EQL {
+					return
+				}
+				for _, pair := range [][2]ssa.Value{{b.X, b.Y}, {b.Y, b.X}} {
+					k, isK := constInt(pair[1])
+					if !isK {
+						continue
+					}
+					var idx ssa.Value
+					switch x := pair[0].(type) {
+					case *ssa.Lookup:
+						idx = x.Index
+					case *ssa.Index:
+						idx = x.Index
+					case *ssa.UnOp:
+						if ia, ok := x.X.(*ssa.IndexAddr); ok {
+							idx = ia.Index
+						}
+					}
+					if idx == nil {
+						continue
+					}
+					if i, ok := constInt(idx); ok && i == 0 && k == '[' {
+						hasPre = true
+					}
+					if bo, ok := idx.(*ssa.BinOp); ok && bo.Op == token.SUB && k == ']' {
+						if one, ok := constInt(bo.Y); ok && one == 1 && isCallNamed(bo.X, "builtin.len") != nil {
+							hasSuf = true
+						}
+					}
+				}
+			})
 			c.check(hasPre && hasSuf, "isLiteralAttr: [ … ]", p.pos(lit.Pos()), "prefix [ and suffix ]", "isLiteralAttr no longer tests both brackets")
 		},
 	})
@@ -688,6 +723,26 @@ func init() {
 						}
 						if site, ok := in.(ssa.CallInstruction); ok && isSortCall(site.Common()) && dominates(in, r) {
 							sorted = true
+						}
+						// slices.AppendSeq / Collect / Sorted over maps.Keys(m) / maps.Values(m): the same, spelled with iterators
+						if cl, ok := in.(*ssa.Call); ok {
+							n := calleeName(&cl.Call)
+							if strings.HasPrefix(n, "slices.AppendSeq") || strings.HasPrefix(n, "slices.Collect") || strings.HasPrefix(n, "slices.Sorted") {
+								for _, a := range cl.Call.Args {
+									for _, o := range p.origins(a, OriginOpts{}) {
+										if it, ok := o.(*ssa.Call); ok {
+											if in := calleeName(&it.Call); (strings.HasPrefix(in, "maps.Keys") || strings.HasPrefix(in, "maps.Values")) && len(it.Call.Args) == 1 {
+												if _, isMap := it.Call.Args[0].Type().Underlying().(*types.Map); isMap {
+													fromSet = true
+												}
+											}
+										}
+									}
+								}
+								if strings.HasPrefix(n, "slices.Sorted") && dominates(in, r) {
+									sorted = true
+								}
+							}
 						}
 					})
 					// every append into the result must happen inside a range over a map
